@@ -104,8 +104,12 @@ class SQuad(EditableModule):
         res = self.obj.integrate(y)
         if keepdim:
             res = res.unsqueeze(-1)
-        if swapaxes:
-            res = res.transpose(dim, -1)
+            if swapaxes:
+                res = res.transpose(dim, -1)
+        elif swapaxes and dim % y.ndim != y.ndim - 1:
+            # the integrated dimension is removed and the last dimension of y
+            # sits in its place, so move it back to the end
+            res = res.movedim(dim % y.ndim, -1)
         return res
 
     def getparamnames(self, methodname: str, prefix: str = "") -> List[str]:
